@@ -54,7 +54,7 @@ verif_harness! {
     }
 }
 
-//@ harness name=xtea_roundtrip_ed prop=C01 tier=thorough bits=192 est=728 solver=kissat desc="D: decrypt_block(encrypt_block(b)) == b for all 2^128 keys and all 2^64 blocks"
+//@ harness name=xtea_roundtrip_ed prop=C01 tier=thorough bits=192 est=728 desc="D: decrypt_block(encrypt_block(b)) == b for all 2^128 keys and all 2^64 blocks"
 verif_harness! {
     name: xtea_roundtrip_ed,
     bytes: 24,
